@@ -499,6 +499,28 @@ def thread_local_rules(chk, P, prefix):
     chk.ob("%s.R9:open_push-unwrap-guarded" % prefix, "open_push replaces an empty snapshot by a map before unwrapping it", push_unwrap_guarded)
 
 
+    def who_touches_active():
+        """The thread-local map of active frames is reached only through `current` (snapshot) and `swap` (exchange): anything else that
+        touches it - clearing, removing or editing an entry - breaks the pairing of enter and exit the swap rule relies on."""
+        users = set()
+        for k, b in P.bodies.items():
+            if b.crate != "emit" or "thread_local_ctxt" not in b.file or "::tests::" in k:
+                continue
+            for c in b.calls(normal_only=True):
+                for a in c.args:
+                    o = b.origin(a)
+                    if o[0] == "const" and str(o[1].get("def", "")).endswith("::ACTIVE"):
+                        users.add(k.split("::{closure")[0])
+        ok = {TL + "current", TL + "swap"}
+        if not users:
+            raise mir.AnchorMissing("users of the ACTIVE thread-local")
+        extra = sorted(users - ok)
+        if extra:
+            return False, "%s accesses the thread-local map of active frames directly (only current() and swap() may)" % extra[0], [], None
+        return True, "", sorted(users)
+    chk.ob("%s.R8:who-touches-active" % prefix, "only current() and swap() reach the thread-local map of active frames", who_touches_active)
+
+
 def run(chk):
     P = mir.Program("K1")
     chk.use_program(P)
